@@ -499,6 +499,10 @@ func (db *MultiBucketBackend) PutObject(
 	objectFilePath := filepath.FromSlash(objectPath)
 	objectDir := filepath.Dir(objectFilePath)
 
+	if belowFile(db.bucketFs, objectPath) {
+		return result, errUnsupportedKey(objectName)
+	}
+
 	if objectDir != "." {
 		if err := db.bucketFs.MkdirAll(objectDir, db.dirMode); err != nil {
 			return result, err
